@@ -231,9 +231,9 @@ func c11ChooseConfig(x *mc.X, e *c11Entry) *c11Config {
 		}
 	}
 	if !e.noOpts {
-		c.testLvl = x.Choose(3, "testLevel")
+		c.testLvl = x.Choose(4, "testLevel")
 	}
-	c.execLvl = x.Choose(3, "execLevel")
+	c.execLvl = x.Choose(4, "execLevel")
 	return c
 }
 
@@ -280,6 +280,12 @@ func (c *c11Config) testOpts() []z.TestOption {
 		return []z.TestOption{z.Message("TESTMSG")}
 	case 2:
 		return []z.TestOption{z.MessageFunc(func(e *z.ZogIssue, ctx z.Ctx) { e.SetMessage("TESTFUNC:" + e.Code) })}
+	case 3:
+		// a formatter in two steps: the stock text first, then its own decision (the last write is the message)
+		return []z.TestOption{z.MessageFunc(func(e *z.ZogIssue, ctx z.Ctx) {
+			conf.DefaultIssueFormatter(e, ctx)
+			e.SetMessage("TESTFUNC:" + e.Code)
+		})}
 	}
 	return nil
 }
@@ -291,6 +297,13 @@ func (c *c11Config) execOpts() []z.ExecOption {
 	}
 	if c.execLvl == 1 {
 		o = append(o, z.WithIssueFormatter(func(e *z.ZogIssue, ctx z.Ctx) { e.SetMessage("EXECMSG:" + e.Code) }))
+	}
+	if c.execLvl == 3 {
+		// two steps: delegate to the stock formatter, then override
+		o = append(o, z.WithIssueFormatter(func(e *z.ZogIssue, ctx z.Ctx) {
+			conf.DefaultIssueFormatter(e, ctx)
+			e.SetMessage("EXECMSG:" + e.Code)
+		}))
 	}
 	if c.execLvl == 2 {
 		// the older spelling of the same option, still exported
@@ -347,7 +360,7 @@ func c11CheckIssue(is *z.ZogIssue, wantDtype, wantCode, pkey string, pval any, c
 		if is.Message != "TESTMSG" {
 			return "precedence", fmt.Sprintf("message %q is not the test's own Message", is.Message)
 		}
-	case cfg.testLvl == 2:
+	case cfg.testLvl >= 2:
 		if is.Message != "TESTFUNC:"+is.Code {
 			return "precedence", fmt.Sprintf("message %q is not from the test's own MessageFunc", is.Message)
 		}
